@@ -52,6 +52,10 @@ CHECKS = {
  'C07': ('exploration', 'runtime monitor: icontract post-conditions on the real query_table (header width = record width, fresh rows, warnings only extended, sources unchanged) + reference naming rules as oracle + the width-enforcing CSV and pandas writers as secondary observers; JS leg via node',
          'Generated select lists with nested brackets, commas in calls and literals, aliases, stars, DISTINCT COUNT, EXCEPT, GROUP BY, UPDATE, joins are executed with and without input header; header names are compared with the documented rule and header width with every emitted record; held on the executions observed.',
          'Trusted: rv/model/refsem.py header_names; rectangular tables only (fixed-width select lists).', 'DESIGN.md#c07'),
+
+ 'C06': ('exploration', 'runtime monitors armed around every query (success and every exception path): deep snapshots + row identity + scribble test of list sources, icontract on query_table, dataframe deep copies, recording sqlite connection + authorizer log + total_changes + database file hash under hostile identifiers, file fingerprints + sys.addaudithook log of open modes, strace on the CLI, JS array snapshots in the node driver',
+         'Every query shape of C01-C05 plus failing variants is executed against every source kind with observers that record any write access or change; the sqlite clause is decided from three independent observations (authorizer actions, SQL text characters, identifier after FROM); held on the executions observed.',
+         'Trusted: the observers (audit hook, authorizer, strace parser). sqlite3.connect opens the file read-write by itself; the file hash decides there.', 'DESIGN.md#c06'),
 }
 
 NOT_YET = 'check not registered yet (machinery under construction; see DESIGN.md section 3a build order)'
